@@ -100,6 +100,14 @@ func (c *FnCtx) evalCall(st *State, call *ast.CallExpr) Val {
 			return c.freshVal(resT, "res")
 		}
 		args := c.evalArgs(st, call, sig)
+		if fv.Lit != nil {
+			// a literal that is itself under contract is called through its contract
+			if key, ok := c.eng.litKeys[fv.Lit.lit]; ok {
+				if fs, ok := c.eng.contracts.Funcs[key]; ok {
+					return c.callLitByContract(st, fs, sig, fv.Lit, args, call.Pos(), key)
+				}
+			}
+		}
 		if fv.Lit != nil && c.inlineDepth < 6 {
 			return c.inlineBody(st, "closure", sig, fv.Lit.lit.Body, nil, nil, args, fv.Lit.info, c.pkg, true)
 		}
@@ -184,7 +192,39 @@ func (c *FnCtx) adjustRecv(st *State, rv Val, rt types.Type, sel *types.Selectio
 
 // applyFn models a call of an unknown function value as an uninterpreted pure function.
 func (c *FnCtx) applyFn(st *State, fv Val, sig *types.Signature, args []Val) Val {
-	c.trusted["function values (filters, parsers passed as arguments) are modelled as pure, total functions of their arguments"] = true
+	c.trusted["function values (filters, parsers passed as arguments) are modelled as total functions of their arguments that write only through their pointer arguments"] = true
+	impure := false
+	for _, a := range args {
+		if a.K == KPtr && a.Elem != nil {
+			impure = true
+			if _, isStruct := a.Elem.Underlying().(*types.Struct); isStruct {
+				c.havocPtrStruct(st, a.Elem)
+			}
+		}
+	}
+	if impure {
+		// a function working through pointers (a parser): each call may answer differently
+		res := sig.Results()
+		switch res.Len() {
+		case 0:
+			return Val{K: KUnit}
+		case 1:
+			v := c.freshVal(res.At(0).Type(), "fnres")
+			for _, f := range c.typeFacts(v) {
+				c.assume(st, f)
+			}
+			return v
+		}
+		v := Val{K: KTuple}
+		for i := 0; i < res.Len(); i++ {
+			x := c.freshVal(res.At(i).Type(), "fnres")
+			for _, f := range c.typeFacts(x) {
+				c.assume(st, f)
+			}
+			v.F = append(v.F, x)
+		}
+		return v
+	}
 	var argTerms, argSorts []string
 	argTerms = append(argTerms, fv.S)
 	argSorts = append(argSorts, "Fn")
@@ -284,7 +324,16 @@ func (c *FnCtx) callFunc(st *State, fn *types.Func, sig *types.Signature, recv *
 			return v
 		}
 	}
-	if d, ok := c.eng.decls[fn]; ok && d.decl.Body != nil {
+	recvMismatch := false
+	if sig.Recv() != nil && recv != nil {
+		if _, wantPtr := sig.Recv().Type().Underlying().(*types.Pointer); wantPtr && recv.K != KPtr {
+			// pointer-receiver method on an addressable expression that is not modelled as a
+			// pointer (a field of a struct behind a pointer): not inlined
+			recvMismatch = true
+			c.unmodelled["method with pointer receiver called on an addressable field: "+key+" (result and effects unconstrained)"] = true
+		}
+	}
+	if d, ok := c.eng.decls[fn]; ok && d.decl.Body != nil && !recvMismatch {
 		rec := false
 		for _, s := range c.inlineStack {
 			if s == key {
@@ -422,6 +471,9 @@ func (c *FnCtx) callByContract(st *State, fs *FuncSpec, sig *types.Signature, re
 		c.deps[key] = true
 	}
 	vars := map[string]Val{}
+	for k, v := range c.capturedBinding {
+		vars[k] = v
+	}
 	if recv != nil && fs.Recv != "" {
 		vars[fs.Recv] = *recv
 	}
@@ -1117,3 +1169,12 @@ func (c *FnCtx) dispatchCall(st *State, fn *types.Func, sig *types.Signature, re
 }
 
 var heapItemRe = regexp.MustCompile(`^heap\(([\w.]+)\)$`)
+
+// callLitByContract calls a function literal through its contract; the names of its captured
+// variables are bound to their values at the point where the literal was created.
+func (c *FnCtx) callLitByContract(st *State, fs *FuncSpec, sig *types.Signature, lit *closureLit, args []Val, pos token.Pos, key string) Val {
+	saved := c.capturedBinding
+	c.capturedBinding = lit.captured
+	defer func() { c.capturedBinding = saved }()
+	return c.callByContract(st, fs, sig, nil, args, pos, key)
+}
